@@ -14,7 +14,7 @@ import numpy as np
 
 LEVEL = 'exploration'
 LEVEL_TEXT = ('Seeded bounded exploration at run time of the real Linen and NNX attention / recurrent layers: cells x T in 1..6 x '
-              'batch shapes (), (2,), (2,3) x heads 1..3 x every reverse/keep_order/time_major/return_carry/seq_lengths flag '
+              'batch shapes (), (2,), (2,3) (+ square (2,2), (3,3) for RNN with seq_lengths) x heads 1..3 x every reverse/keep_order/time_major/return_carry/seq_lengths flag '
               'combination (complete product for nn.RNN on the thorough tier) x seq_lengths in [1,T] per batch element x random '
               'masks and biases. Each case compares the layer with (i) the same layer driven one step at a time, (ii) a paired '
               'input that differs by +-1e3 on ignored positions only, (iii) float64 NumPy references written from the docstrings, '
@@ -30,13 +30,16 @@ RULE = ('streams: attn.fn (dot_product_attention[_weights] + mask helpers, both 
         'MultiHeadAttention on the same parameters: decode loop with cache monitor vs causal whole sequence, extra random mask and '
         'attention_bias, causal / padding / dead-key / garbage-cache perturbations), rnn.linen (9-11 cell variants x batch shapes '
         'x T 1..6 x 32 flag combinations, balanced sample on quick, complete product on thorough), rnn.nnx (5 NNX cell variants, '
-        'same flags; LSTMCell also against Linen LSTMCell/OptimizedLSTMCell on the same parameters), rnn.bidir (Linen and NNX '
-        'Bidirectional). Every RNN configuration is run on K value draws (inputs, seq_lengths in [1,T]^batch, optional random '
+        'same flags; LSTMCell also against Linen LSTMCell/OptimizedLSTMCell on the same parameters), rnn.square (both RNNs on '
+        'square batch shapes (2,2), (3,3), mostly with seq_lengths and return_carry: the shapes where an indexing slip over the '
+        'batch dims returns a wrong-shaped carry instead of raising), rnn.bidir (Linen and NNX Bidirectional). Every RNN configuration is run on K value draws (inputs, seq_lengths in [1,T]^batch, optional random '
         'initial carry, +-1e3 padding perturbation). Random masks always keep >= 1 allowed key per query row (rows with no allowed '
         'key are out of domain: softmax of all finfo.min is uniform by construction); masks/biases carry either the full batch '
         'dims or all-singleton batch dims (partially broadcast batch dims are outside the documented MultiHeadAttention mask shape); '
         'outputs at padded positions (t >= seq_lengths) are unspecified by the docstring and never compared; perturbations are '
-        'finite (+-1e3), never NaN/inf; ConvLSTMCell only with padding=SAME, stride 1 (other settings change the carry shape). '
+        'finite (+-1e3), never NaN/inf; the function nnx.dot_product_attention gets value depth != query/key depth only on its '
+        'explicit-weights path (module given): its fused jax.nn path rejects that shape, which is not a clause of this property '
+        '(the Linen function gets both); ConvLSTMCell only with padding=SAME, stride 1 (other settings change the carry shape). '
         'distinct = distinct configuration descriptors; non-trivial = sequence length >= 2.')
 ASSUMPTIONS = [
     'float32 parameters and inputs, |x| <= 1, |params| <= 0.7, dims <= 6: stepwise/whole differences are rounding only (TOL_SAME_PROGRAM), formula differences within TOL_FORMULA',
@@ -48,15 +51,18 @@ MIN_EVENTS = {
     'quick': {'oracle:attn.decode_vs_whole': 200, 'oracle:attn.cache_index': 200, 'oracle:attn.cache_rows_frozen': 150,
               'oracle:attn.weights': 100, 'oracle:attn.noninterference': 80, 'oracle:attn.mask_helper': 100,
               'oracle:rnn.outputs': 300, 'oracle:rnn.final_carry': 120, 'oracle:rnn.noninterference': 100,
-              'oracle:cell.recurrence': 300, 'oracle:xapi.attention': 30, 'oracle:xapi.lstm': 8, 'oracle:bidir.outputs': 20},
+              'oracle:cell.recurrence': 300, 'oracle:xapi.attention': 30, 'oracle:xapi.lstm': 8, 'oracle:bidir.outputs': 20,
+              'oracle:rnn.seq_lengths_multi_batch_dims': 40},
     'thorough': {'oracle:attn.decode_vs_whole': 1500, 'oracle:attn.cache_index': 1500, 'oracle:attn.weights': 800,
                  'oracle:attn.noninterference': 600, 'oracle:rnn.outputs': 8000, 'oracle:rnn.final_carry': 3000,
                  'oracle:rnn.noninterference': 3000, 'oracle:cell.recurrence': 8000, 'oracle:xapi.attention': 200,
-                 'oracle:xapi.lstm': 100, 'oracle:bidir.outputs': 200},
+                 'oracle:xapi.lstm': 100, 'oracle:bidir.outputs': 200, 'oracle:rnn.seq_lengths_multi_batch_dims': 1000},
 }
 
-F5 = 'rnn.seq_lengths_multi_batch_dims:raises'
+F5 = 'rnn.seq_lengths_multi_batch_dims:raises'            # documented seq_lengths of shape (*batch), >= 2 batch dims, carry requested
+F5_WRONG = 'rnn.seq_lengths_multi_batch_dims:wrong_carry'  # same inputs, no exception, carry of wrong shape / values (square batches)
 BATCHES = [(), (2,), (2, 3)]
+SQUARE_BATCHES = [(2, 2), (3, 3)]
 BIG = 1e3
 
 LINEN_CELLS = [
@@ -311,6 +317,25 @@ def rnn_configs(ctx, stream, cells, n_quick):
   return out
 
 
+def square_configs(ctx, n_quick):
+  """Square batch shapes (n, n) with seq_lengths: the shapes on which a per-batch-dim indexing slip does not raise but
+  returns a carry of the wrong shape.  Both APIs; seq_lengths and return_carry are on in 3 of 4 configurations."""
+  if ctx.tier == 'thorough':
+    base = [(api, ci, bi, f) for api, cells in (('linen', LINEN_CELLS_THOROUGH), ('nnx', NNX_CELLS)) for ci in range(len(cells))
+            for bi in range(2) for f in itertools.product([0, 1], repeat=3)]
+  else:
+    base = [(('linen', 'nnx')[i % 2], i // 2, (i // 2) % 2, ((i // 4) % 2, (i // 8) % 2, (i // 2) % 2)) for i in range(n_quick)]
+  out = []
+  for i, (api, ci, bi, (tm, rev, ko)) in enumerate(base):
+    r = ctx.rng('rnn.square', 'attr', i)
+    cells = (LINEN_CELLS_THOROUGH if ctx.tier == 'thorough' else LINEN_CELLS) if api == 'linen' else NNX_CELLS
+    rc, use_L = (1, 1) if i % 4 != 3 else (r.randrange(2), r.randrange(2))
+    fin, hid = r.choice([(3, 2), (2, 3)])
+    out.append(dict(api=api, cell=cells[ci % len(cells)], batch=SQUARE_BATCHES[bi], T=r.randrange(1, 7), flags=(tm, rev, ko, rc, use_L), fin=fin, hid=hid,
+                    via=r.choice(['ctor', 'call']), init_carry=r.random() < 0.5, eager=r.random() < 0.25))
+  return out
+
+
 def desc_of(cfg):
   d = dict(cfg)
   d['cell'] = _spec_name(cfg['cell'])
@@ -406,7 +431,7 @@ def run_rnn_case(ctx, api, cfg, rg, K):
     ctx.check(ok_shape and _close(got_out[valid], exp_out[valid], core.TOL_SAME_PROGRAM), 'rnn.outputs:' + api,
               lambda: dict(detail, diff=_diff(got_out[valid], exp_out[valid]) if ok_shape else _diff(got_out, exp_out)))
     if has_carry:
-      ctx.check(_tree_close(got_carry, exp_carry, core.TOL_SAME_PROGRAM), 'rnn.final_carry:' + api,
+      ctx.check(_tree_close(got_carry, exp_carry, core.TOL_SAME_PROGRAM), F5_WRONG if f5_domain else 'rnn.final_carry:' + api,
                 lambda: dict(detail, diff=_tree_diff(got_carry, exp_carry)))
 
     # ---- the cell follows its documented recurrence (float64 NumPy, the cell's own parameters)
@@ -424,7 +449,7 @@ def run_rnn_case(ctx, api, cfg, rg, K):
       ctx.check(got2_out.shape == got_out.shape and _close(got2_out[valid], got_out[valid], core.TOL_SAME_PROGRAM),
                 'rnn.noninterference:%s.outputs' % api, lambda: dict(detail, diff=_diff(got2_out[valid], got_out[valid])))
       if has_carry:
-        ctx.check(_tree_close(got2_carry, got_carry, core.TOL_SAME_PROGRAM), 'rnn.noninterference:%s.carry' % api,
+        ctx.check(_tree_close(got2_carry, got_carry, core.TOL_SAME_PROGRAM), F5_WRONG if f5_domain else 'rnn.noninterference:%s.carry' % api,
                   lambda: dict(detail, diff=_tree_diff(got2_carry, got_carry)))
 
     # ---- Linen and NNX agree on the same parameters (LSTM)
@@ -454,7 +479,7 @@ def bidir_configs(ctx, n):
     r = ctx.rng('rnn.bidir', 'cfg', i)
     api = 'linen' if i % 3 != 2 else 'nnx'
     cells = dense if api == 'linen' else NNX_CELLS
-    out.append(dict(api=api, fwd=cells[i % len(cells)], bwd=r.choice(cells), batch=BATCHES[(i // 2) % 3], T=1 + (i * 5 + i // 6) % 6,
+    out.append(dict(api=api, fwd=cells[i % len(cells)], bwd=r.choice(cells), batch=(BATCHES + SQUARE_BATCHES[:1])[(i // 2) % 4], T=1 + (i * 5 + i // 6) % 6,
                     time_major=bool((i // 3) % 2), return_carry=bool(i % 2), use_L=r.random() < 0.6, fin=r.choice([2, 3]),
                     hid_f=r.choice([2, 3]), hid_b=r.choice([1, 2]), via=r.choice(['ctor', 'call']), init_carry=r.random() < 0.4))
   return out
@@ -523,7 +548,7 @@ def run_bidir_case(ctx, cfg, rg, K):
               lambda: dict(detail, diff=_diff(got_out[valid], exp_out[valid]) if ok_shape else _diff(got_out, exp_out)))
     if rc:
       ctx.check(isinstance(got_carry, tuple) and len(got_carry) == 2 and _tree_close(got_carry[0], f_carry, core.TOL_SAME_PROGRAM)
-                and _tree_close(got_carry[1], b_carry, core.TOL_SAME_PROGRAM), 'bidir.final_carry:' + api,
+                and _tree_close(got_carry[1], b_carry, core.TOL_SAME_PROGRAM), F5_WRONG if f5_domain else 'bidir.final_carry:' + api,
                 lambda: dict(detail, diff=_tree_diff(got_carry, (f_carry, b_carry))))
     if L is not None and not valid.all():
       x2 = x.copy()
@@ -534,7 +559,7 @@ def run_bidir_case(ctx, cfg, rg, K):
       ctx.check(_close(got2_out[valid], got_out[valid], core.TOL_SAME_PROGRAM), 'rnn.noninterference:%s.bidir.outputs' % api,
                 lambda: dict(detail, diff=_diff(got2_out[valid], got_out[valid])))
       if rc:
-        ctx.check(_tree_close(got2_carry, got_carry, core.TOL_SAME_PROGRAM), 'rnn.noninterference:%s.bidir.carry' % api,
+        ctx.check(_tree_close(got2_carry, got_carry, core.TOL_SAME_PROGRAM), F5_WRONG if f5_domain else 'rnn.noninterference:%s.bidir.carry' % api,
                   lambda: dict(detail, diff=_tree_diff(got2_carry, got_carry)))
 
 
@@ -570,12 +595,15 @@ def attn_fn_configs(ctx, n):
     r = ctx.rng('attn.fn', 'cfg', i)
     tq = 1 + (i * 3 + i // 5) % 5
     out.append(dict(batch=BATCHES[i % 3], Tq=tq, Tk=r.choice([tq, tq, 1 + r.randrange(5)]), H=1 + (i // 3) % 3, D=r.choice([1, 2, 3]),
-                    Dv=r.choice([1, 2]), bias=r.choice(['none', 'full', 'head1', 'batch1']),
-                    mask=r.choice(['none', 'full', 'full', 'head1', 'batch1']), dead=r.random() < 0.6))
+                    Dv=0, bias=r.choice(['none', 'full', 'head1', 'batch1']),
+                    mask=r.choice(['none', 'full', 'full', 'head1', 'batch1']), dead=r.random() < 0.6,
+                    mask_bool=r.random() < 0.5, eager=r.random() < 0.15))
+    out[-1]['Dv'] = out[-1]['D'] if r.random() < 0.75 else 1 + out[-1]['D'] % 3  # Dv != D: Linen function and NNX explicit path only
   return out
 
 
-def run_attn_fn_case(ctx, cfg, rg, K):
+def run_attn_fn_case(ctx, cfg, rg, K, index):
+  import jax
   import jax.numpy as jnp
   import flax.linen as nn
   from flax import nnx
@@ -583,6 +611,21 @@ def run_attn_fn_case(ctx, cfg, rg, K):
   from vf import core
   from vf.refs import seq
   bs, tq, tk, h, d, dv = tuple(cfg['batch']), cfg['Tq'], cfg['Tk'], cfg['H'], cfg['D'], cfg['Dv']
+  eager = cfg['eager']
+
+  # one compilation for the four real functions of a configuration (eager: called op by op)
+  def bundle(a, b, c, jb, jm):
+    return dict(
+        lw=nn.dot_product_attention_weights(a, b, jb, jm, deterministic=True),
+        lo=nn.dot_product_attention(a, b, c, jb, jm, deterministic=True),
+        nw=nattn.dot_product_attention_weights(a, b, jb, jm, deterministic=True))
+
+  def nnx_fast(a, b, c, jb, jm):
+    return nnx.dot_product_attention(a, b, c, jb, jm, deterministic=True)
+
+  if not eager:
+    bundle, nnx_fast = jax.jit(bundle), jax.jit(nnx_fast)
+
   for k in range(K):
     q = rg.uniform(-1, 1, bs + (tq, h, d)).astype(np.float32)
     kk = rg.uniform(-1, 1, bs + (tk, h, d)).astype(np.float32)
@@ -594,42 +637,49 @@ def run_attn_fn_case(ctx, cfg, rg, K):
       if cfg['dead'] and tk >= 2:
         dead = tuple(sorted(rg.choice(tk, size=int(rg.integers(1, tk)), replace=False).tolist()))
       mask = random_mask(rg, bcast_shape(rg, bs, h, cfg['mask']) + (tq, tk), dead)
+    mname = 'bool' if cfg['mask_bool'] else 'float'
     detail = dict(cfg, draw=k, dead_keys=dead)
     jb = None if bias is None else jnp.asarray(bias)
-    variants = [('bool', None if mask is None else jnp.asarray(mask)), ('float', None if mask is None else jnp.asarray(mask.astype(np.float32)))]
-    mname, jm = variants[k % 2]
+    jm = None if mask is None else jnp.asarray(mask if cfg['mask_bool'] else mask.astype(np.float32))
     w_ref, row_ok = seq.attention_weights(q, kk, bias, mask)
     o_ref, _ = seq.attention(q, kk, v, bias, mask)
     assert row_ok.all()
     jq, jk, jv = jnp.asarray(q), jnp.asarray(kk), jnp.asarray(v)
+    k2, v2 = kk.copy(), v.copy()
+    if dead:
+      idx = (Ellipsis, list(dead), slice(None), slice(None))
+      k2[idx] = _big(rg, k2[idx].shape)
+      v2[idx] = _big(rg, v2[idx].shape)
 
-    holder = nnx.Module()
-    calls = [
-        ('linen', lambda a, b, c: nn.dot_product_attention_weights(a, b, jb, jm, deterministic=True),
-         lambda a, b, c: nn.dot_product_attention(a, b, c, jb, jm, deterministic=True)),
-        ('nnx', lambda a, b, c: nattn.dot_product_attention_weights(a, b, jb, jm, deterministic=True),
-         lambda a, b, c: nnx.dot_product_attention(a, b, c, jb, jm, deterministic=True)),
-        ('nnx.sow', None, lambda a, b, c: nnx.dot_product_attention(a, b, c, jb, jm, deterministic=True, module=holder)),
-    ]
-    for api, wfn, ofn in calls:
-      if wfn is not None:
-        w = np.asarray(wfn(jq, jk, jv))
-        ctx.op(api + '.dot_product_attention_weights')
-        ctx.check(_close(w, w_ref, core.TOL_FORMULA), 'attn.weights:%s.fn' % api, lambda: dict(detail, mask_dtype=mname, diff=_diff(w, w_ref)))
-      o = np.asarray(ofn(jq, jk, jv))
-      ctx.op(api + '.dot_product_attention')
-      ctx.check(_close(o, o_ref, core.TOL_FORMULA), 'attn.output:%s.fn' % api, lambda: dict(detail, mask_dtype=mname, diff=_diff(o, o_ref)))
-      if api == 'nnx.sow':
-        w = np.asarray(holder.attention_weights.value[-1])
-        ctx.check(_close(w, w_ref, core.TOL_FORMULA), 'attn.weights:nnx.sown', lambda: dict(detail, diff=_diff(w, w_ref)))
+    res = _to_np(bundle(jq, jk, jv, jb, jm))
+    ctx.op('linen.dot_product_attention_weights')
+    ctx.op('linen.dot_product_attention')
+    ctx.op('nnx.dot_product_attention_weights')
+    for api, key in (('linen', 'lw'), ('nnx', 'nw')):
+      ctx.check(_close(res[key], w_ref, core.TOL_FORMULA), 'attn.weights:%s.fn' % api, lambda: dict(detail, mask_dtype=mname, diff=_diff(res[key], w_ref)))
+    ctx.check(_close(res['lo'], o_ref, core.TOL_FORMULA), 'attn.output:linen.fn', lambda: dict(detail, mask_dtype=mname, diff=_diff(res['lo'], o_ref)))
+    if dead:
       # non-interference: keys/values at positions masked for every query may change freely
+      res2 = _to_np(bundle(jq, jnp.asarray(k2), jnp.asarray(v2), jb, jm))
+      ctx.check(_close(res2['lo'], res['lo'], core.TOL_SAME_PROGRAM), 'attn.noninterference:linen.fn.dead_keys', lambda: dict(detail, diff=_diff(res2['lo'], res['lo'])))
+      ctx.check(_close(res2['lw'], res['lw'], core.TOL_SAME_PROGRAM) and _close(res2['nw'], res['nw'], core.TOL_SAME_PROGRAM),
+                'attn.noninterference:fn.dead_keys_weights', lambda: dict(detail, diff=_diff(res2['lw'], res['lw'])))
+
+    # NNX dot_product_attention: fused jax.nn path (module=None), and the explicit-weights path taken when weights are sown
+    # (the fused path rejects value depth != query/key depth: outside this property, so it only gets Dv == D)
+    ctx.op('nnx.dot_product_attention')
+    if dv == d:
+      no = np.asarray(nnx_fast(jq, jk, jv, jb, jm))
+      ctx.check(_close(no, o_ref, core.TOL_FORMULA), 'attn.output:nnx.fn', lambda: dict(detail, mask_dtype=mname, diff=_diff(no, o_ref)))
       if dead:
-        k2, v2 = kk.copy(), v.copy()
-        idx = (Ellipsis, list(dead), slice(None), slice(None))
-        k2[idx] = _big(rg, k2[idx].shape)
-        v2[idx] = _big(rg, v2[idx].shape)
-        o2 = np.asarray(ofn(jq, jnp.asarray(k2), jnp.asarray(v2)))
-        ctx.check(_close(o2, o, core.TOL_SAME_PROGRAM), 'attn.noninterference:%s.fn.dead_keys' % api, lambda: dict(detail, diff=_diff(o2, o)))
+        no2 = np.asarray(nnx_fast(jq, jnp.asarray(k2), jnp.asarray(v2), jb, jm))
+        ctx.check(_close(no2, no, core.TOL_SAME_PROGRAM), 'attn.noninterference:nnx.fn.dead_keys', lambda: dict(detail, diff=_diff(no2, no)))
+    if dv != d or (k == 0 and (eager or index % 3 == 0)):
+      holder = nnx.Module()
+      ns = np.asarray(nnx.dot_product_attention(jq, jk, jv, jb, jm, deterministic=True, module=holder))
+      ws = np.asarray(holder.attention_weights.value[-1])
+      ctx.check(_close(ns, o_ref, core.TOL_FORMULA), 'attn.output:nnx.fn.sow_path', lambda: dict(detail, diff=_diff(ns, o_ref)))
+      ctx.check(_close(ws, w_ref, core.TOL_FORMULA), 'attn.weights:nnx.fn.sown', lambda: dict(detail, diff=_diff(ws, w_ref)))
 
   # mask helpers (exact)
   for api, mod in (('linen', nn), ('nnx', nnx)):
@@ -650,9 +700,10 @@ def run_attn_fn_case(ctx, cfg, rg, K):
     sm = np.asarray(mod.make_attention_mask(jnp.asarray(qs), jnp.asarray(ks), jnp.equal, dtype=bool))
     want_s = seq.pairwise_mask(qs, ks, lambda a, b: a == b) != 0
     ctx.check(sm.shape == want_s.shape and sm.dtype == bool and np.array_equal(sm, want_s), 'attn.mask_helper:%s.segments' % api, lambda: dict(batch=bs))
-    comb = mod.combine_masks(jnp.asarray(am[(0,) * e] if e else am), None, jnp.asarray(sm))
+    am0 = am[(0,) * e] if e else am
+    comb = mod.combine_masks(jnp.asarray(am0), None, jnp.asarray(sm))
     ctx.op(api + '.combine_masks')
-    want_c = seq.combine(am[(0,) * e] if e else am, None, sm)
+    want_c = seq.combine(am0, None, sm)
     ctx.check(np.array_equal(np.asarray(comb) != 0, want_c) and np.asarray(comb).dtype == np.float32, 'attn.mask_helper:%s.combine' % api, lambda: dict(batch=bs))
     ctx.check(mod.combine_masks(None, None) is None, 'attn.mask_helper:%s.combine_none' % api, None)
 
@@ -689,11 +740,11 @@ def mha_configs(ctx, n):
     h = 1 + i % 3
     out.append(dict(batch=BATCHES[(i // 3) % 3], T=1 + (i * 5 + i // 9 + i // 6) % 6, H=h, D=r.choice([1, 2]), F=r.choice([2, 3]),
                     Fout=r.choice([None, None, 2]), use_bias=r.random() < 0.75, mask=r.choice(['none', 'full', 'head1', 'batch1']),
-                    bias=r.choice(['none', 'full', 'head1']), cache_init=r.choice(['apply', 'apply', 'init']), eager=r.random() < 0.25))
+                    bias=r.choice(['none', 'full', 'head1']), cache_init=r.choice(['apply', 'apply', 'init']), eager=r.random() < 0.12))
   return out
 
 
-def run_mha_case(ctx, cfg, rg):
+def run_mha_case(ctx, cfg, rg, index):
   import jax
   import jax.numpy as jnp
   import flax.linen as nn
@@ -702,9 +753,11 @@ def run_mha_case(ctx, cfg, rg):
   from vf.refs import seq
   bs, T, H, D, F, Fout, ub = tuple(cfg['batch']), cfg['T'], cfg['H'], cfg['D'], cfg['F'], cfg['Fout'], cfg['use_bias']
   nb = len(bs)
+  eager = cfg['eager']
+  z = nn.initializers.zeros_init()
   kw = dict(num_heads=H, qkv_features=H * D, out_features=Fout, use_bias=ub)
   whole = nn.MultiHeadDotProductAttention(decode=False, **kw)
-  dec = nn.MultiHeadDotProductAttention(decode=True, **kw)
+  dec = nn.MultiHeadDotProductAttention(decode=True, kernel_init=z, **kw)  # cheap initializer: init is used for the cache only
   skey = ('mha_shapes', H, D, F, Fout, ub)
   if skey not in _CACHE:
     _CACHE[skey] = jax.eval_shape(lambda: whole.init(jax.random.key(0), np.zeros((1, F), np.float32)))['params']
@@ -715,8 +768,7 @@ def run_mha_case(ctx, cfg, rg):
   if M is not None:
     M[..., np.arange(T), np.arange(T)] = True  # with the causal mask every query row keeps >= 1 allowed key (itself)
   B = None if cfg['bias'] == 'none' else rg.uniform(-2, 2, bcast_shape(rg, bs, H, cfg['bias']) + (T, T)).astype(np.float32)
-  causal_ref = seq.causal_mask(bs, T)
-  full_mask_ref = seq.combine(causal_ref, M)
+  full_mask_ref = seq.combine(seq.causal_mask(bs, T), M)
   jx = jnp.asarray(x)
   jM = None if M is None else jnp.asarray(M.astype(np.float32))
   jB = None if B is None else jnp.asarray(B)
@@ -724,35 +776,83 @@ def run_mha_case(ctx, cfg, rg):
   out_ref, w_ref, row_ok, (q_ref, k_ref, v_ref) = seq.mha(params_np, x, x, x, full_mask_ref, B)
   assert row_ok.all()
 
+  # paired inputs: (a) positions after a causal position p, (b) padded positions, (c) keys no query may see
+  p = int(rg.integers(0, T - 1)) if T >= 2 else None
+  x_c = x.copy()
+  if p is not None:
+    x_c[..., p + 1:, :] = _big(rg, x_c[..., p + 1:, :].shape)
+  lens = rg.integers(1, T + 1, size=bs)
+  if T >= 2 and np.all(lens == T):
+    lens[(0,) * nb] = rg.integers(1, T)
+  valid = seq.valid_mask(seq.lengths_or_full(lens, bs, T), bs, T)
+  jvalid = jnp.asarray(valid.astype(np.float32))
+  x_p = x.copy()
+  x_p[~valid] = _big(rg, x_p[~valid].shape)
+  o_pad_ref = seq.mha(params_np, x, x, x, seq.pairwise_mask(valid, valid, lambda a, b: a * b), None)[0]
+  Tk = int(rg.integers(2, 6))
+  dead = tuple(sorted(rg.choice(Tk, size=int(rg.integers(1, Tk)), replace=False).tolist()))
+  xm = random_mask(rg, bcast_shape(rg, bs, H, 'full' if cfg['mask'] == 'none' else cfg['mask']) + (T, Tk), dead)
+  xk = rg.uniform(-1, 1, bs + (Tk, F)).astype(np.float32)
+  xv = rg.uniform(-1, 1, bs + (Tk, F)).astype(np.float32)
+  o_x_ref = seq.mha(params_np, x, xk, xv, xm, None)[0]
+  xk2, xv2 = xk.copy(), xv.copy()
+  xk2[..., list(dead), :] = _big(rg, xk2[..., list(dead), :].shape)
+  xv2[..., list(dead), :] = _big(rg, xv2[..., list(dead), :].shape)
+  jxm = jnp.asarray(xm)
+
   def rows(a, t):
     return None if a is None else a[..., t:t + 1, :]
 
+  def check_whole(api, r1, r2):
+    """r1: results on the original inputs, r2: on the perturbed inputs (same compiled program)."""
+    y, yc, yp, yx = (np.asarray(r1[k]) for k in ('y', 'y', 'y_pad', 'y_cross'))
+    ctx.check(_close(y, out_ref, core.TOL_FORMULA), 'attn.mha_formula:' + api, lambda: dict(detail, diff=_diff(y, out_ref)))
+    w = np.asarray(r1['w'])
+    ctx.check(_close(w, w_ref, core.TOL_FORMULA), 'attn.weights:%s.mha' % api, lambda: dict(detail, diff=_diff(w, w_ref)))
+    if 'y_sow' in r1:
+      ys = np.asarray(r1['y_sow'])
+      ctx.check(_close(ys, out_ref, core.TOL_FORMULA), 'attn.mha_formula:%s.sow_path' % api, lambda: dict(detail, diff=_diff(ys, out_ref)))
+    ctx.check(yp.shape == o_pad_ref.shape and _close(yp[valid], o_pad_ref[valid], core.TOL_FORMULA), 'attn.mha_formula:%s.padding' % api,
+              lambda: dict(detail, lengths=lens.tolist(), diff=_diff(yp[valid], o_pad_ref[valid])))
+    ctx.check(_close(yx, o_x_ref, core.TOL_FORMULA), 'attn.mha_formula:%s.cross' % api, lambda: dict(detail, Tk=Tk, dead=dead, diff=_diff(yx, o_x_ref)))
+    y2, yp2, yx2 = (np.asarray(r2[k]) for k in ('y', 'y_pad', 'y_cross'))
+    if p is not None:
+      ctx.check(_close(y2[..., :p + 1, :], y[..., :p + 1, :], core.TOL_SAME_PROGRAM), 'attn.noninterference:%s.causal' % api,
+                lambda: dict(detail, last_equal_position=p, diff=_diff(y2[..., :p + 1, :], y[..., :p + 1, :])))
+    if not valid.all():
+      ctx.check(_close(yp2[valid], yp[valid], core.TOL_SAME_PROGRAM), 'attn.noninterference:%s.padding' % api,
+                lambda: dict(detail, lengths=lens.tolist(), diff=_diff(yp2[valid], yp[valid])))
+    ctx.check(_close(yx2, yx, core.TOL_SAME_PROGRAM), 'attn.noninterference:%s.dead_keys' % api, lambda: dict(detail, Tk=Tk, dead=dead, diff=_diff(yx2, yx)))
+    return y
+
   # ---------------- Linen
-  causal = nn.make_causal_mask(jnp.zeros(bs + (T,)))
-  lmask = nn.combine_masks(causal, jM)
-  y, inter = whole.apply({'params': params}, jx, mask=lmask, attention_bias=jB, sow_weights=True, mutable=['intermediates'])
-  ctx.op('nn.MultiHeadDotProductAttention')
-  y = np.asarray(y)
-  ctx.check(_close(y, out_ref, core.TOL_FORMULA), 'attn.mha_formula:linen', lambda: dict(detail, diff=_diff(y, out_ref)))
-  w = np.asarray(inter['intermediates']['attention_weights'][0])
-  ctx.check(_close(w, w_ref, core.TOL_FORMULA), 'attn.weights:linen.mha', lambda: dict(detail, diff=_diff(w, w_ref)))
+  def l_whole(xc, xp, xq, k_in, v_in):
+    lmask = nn.combine_masks(nn.make_causal_mask(jnp.zeros(bs + (T,))), jM)
+    y, inter = whole.apply({'params': params}, xc, mask=lmask, attention_bias=jB, sow_weights=True, mutable=['intermediates'])
+    return dict(y=y, w=inter['intermediates']['attention_weights'][0],
+                y_pad=whole.apply({'params': params}, xp, mask=nn.make_attention_mask(jvalid, jvalid)),
+                y_cross=whole.apply({'params': params}, xq, k_in, v_in, mask=jxm))
 
   def l_step(cache, xt, m, b):
     return dec.apply({'params': params, 'cache': cache}, xt, mask=m, attention_bias=b, mutable=['cache'])
-
-  l_step_fn = l_step if cfg['eager'] else jax.jit(l_step)
 
   def l_init_cache():
     if cfg['cache_init'] == 'init':
       return dec.init(jax.random.key(1), jnp.zeros(bs + (T, F)))['cache']
     return dec.apply({'params': params}, jnp.zeros(bs + (T, F)), mutable=['cache'])[1]['cache']
 
+  if not eager:
+    l_whole, l_step, l_init_cache = jax.jit(l_whole), jax.jit(l_step), jax.jit(l_init_cache)
+  ctx.op('nn.MultiHeadDotProductAttention')
+  y = check_whole('linen', l_whole(jx, jx, jx, jnp.asarray(xk), jnp.asarray(xv)),
+                  l_whole(jnp.asarray(x_c), jnp.asarray(x_p), jx, jnp.asarray(xk2), jnp.asarray(xv2)))
+
   def l_decode(cache, monitor):
     outs = []
     if monitor:
       monitor.observe(cache['cache_index'], cache['cached_key'], cache['cached_value'])
     for t in range(T):
-      o, mut = l_step_fn(cache, jx[..., t:t + 1, :], rows(jM, t), rows(jB, t))
+      o, mut = l_step(cache, jx[..., t:t + 1, :], rows(jM, t), rows(jB, t))
       cache = mut['cache']
       outs.append(np.asarray(o))
       if monitor:
@@ -778,21 +878,31 @@ def run_mha_case(ctx, cfg, rg):
             lambda: dict(detail, diff=[_diff(a, b) for a, b in zip(outs_g, outs)]))
 
   # ---------------- NNX on the same parameters
-  z = nn.initializers.zeros_init()
   m = nnx.MultiHeadAttention(H, F, H * D, Fout, use_bias=ub, decode=True, kernel_init=z, rngs=nnx.Rngs(0))
   for nm in ('query', 'key', 'value', 'out'):
     getattr(m, nm).kernel.value = params[nm]['kernel']
     if ub:
       getattr(m, nm).bias.value = params[nm]['bias']
   ctx.op('nnx.MultiHeadAttention')
-  nmask = nnx.combine_masks(nnx.make_causal_mask(jnp.zeros(bs + (T,))), jM)
-  yn = np.asarray(m(jx, mask=nmask, attention_bias=jB, decode=False))
+
+  def n_whole(mm, xc, xp, xq, k_in, v_in):
+    nmask = nnx.combine_masks(nnx.make_causal_mask(jnp.zeros(bs + (T,))), jM)
+    out = dict(y=mm(xc, mask=nmask, attention_bias=jB, decode=False),
+               y_sow=mm(xc, mask=nmask, attention_bias=jB, decode=False, sow_weights=True))
+    out['w'] = mm.attention_weights.value[-1]
+    del mm.attention_weights
+    out['y_pad'] = mm(xp, mask=nnx.make_attention_mask(jvalid, jvalid), decode=False)
+    out['y_cross'] = mm(xq, k_in, v_in, mask=jxm, decode=False)
+    return out
+
+  def n_step(mm, xt, mk, b):
+    return mm(xt, mask=mk, attention_bias=b)
+
+  if not eager:
+    n_whole, n_step = nnx.jit(n_whole), nnx.jit(n_step)
+  yn = check_whole('nnx', n_whole(m, jx, jx, jx, jnp.asarray(xk), jnp.asarray(xv)),
+                   n_whole(m, jnp.asarray(x_c), jnp.asarray(x_p), jx, jnp.asarray(xk2), jnp.asarray(xv2)))
   ctx.check(_close(yn, y, core.TOL_FORMULA), 'xapi.attention:whole', lambda: dict(detail, diff=_diff(yn, y)))
-  ctx.check(_close(yn, out_ref, core.TOL_FORMULA), 'attn.mha_formula:nnx', lambda: dict(detail, diff=_diff(yn, out_ref)))
-  yn_s = np.asarray(m(jx, mask=nmask, attention_bias=jB, decode=False, sow_weights=True))
-  wn = np.asarray(m.attention_weights.value[-1])
-  ctx.check(_close(yn_s, out_ref, core.TOL_FORMULA), 'attn.mha_formula:nnx.sow_path', lambda: dict(detail, diff=_diff(yn_s, out_ref)))
-  ctx.check(_close(wn, w_ref, core.TOL_FORMULA), 'attn.weights:nnx.mha', lambda: dict(detail, diff=_diff(wn, w_ref)))
 
   def n_decode(monitor, garbage=False):
     m.init_cache(bs + (T, F))
@@ -803,7 +913,7 @@ def run_mha_case(ctx, cfg, rg):
     if monitor:
       monitor.observe(m.cache_index.value, m.cached_key.value, m.cached_value.value)
     for t in range(T):
-      outs.append(np.asarray(m(jx[..., t:t + 1, :], mask=rows(jM, t), attention_bias=rows(jB, t))))
+      outs.append(np.asarray(n_step(m, jx[..., t:t + 1, :], rows(jM, t), rows(jB, t))))
       if monitor:
         monitor.observe(m.cache_index.value, m.cached_key.value, m.cached_value.value)
     return outs
@@ -820,74 +930,33 @@ def run_mha_case(ctx, cfg, rg):
   ctx.check(all(_close(a, b, core.TOL_SAME_PROGRAM) for a, b in zip(outs_ng, outs_n)), 'attn.noninterference:nnx.cache_garbage',
             lambda: dict(detail, diff=[_diff(a, b) for a, b in zip(outs_ng, outs_n)]))
 
-  apis = [('linen', lambda xx, mk, bb: np.asarray(whole.apply({'params': params}, jnp.asarray(xx), mask=mk, attention_bias=bb))),
-          ('nnx', lambda xx, mk, bb: np.asarray(m(jnp.asarray(xx), mask=mk, attention_bias=bb, decode=False)))]
-
-  # ---------------- non-interference: positions after a causal position
-  if T >= 2:
-    p = int(rg.integers(0, T - 1))
-    x2 = x.copy()
-    x2[..., p + 1:, :] = _big(rg, x2[..., p + 1:, :].shape)
-    for (api, fn), base, msk in zip(apis, (y, yn), (lmask, nmask)):
-      y2 = fn(x2, msk, jB)
-      ctx.check(_close(y2[..., :p + 1, :], base[..., :p + 1, :], core.TOL_SAME_PROGRAM), 'attn.noninterference:%s.causal' % api,
-                lambda: dict(detail, last_equal_position=p, diff=_diff(y2[..., :p + 1, :], base[..., :p + 1, :])))
-
-  # ---------------- non-interference: padding mask (non-causal); rows of padded queries have no allowed key -> not compared
-  lens = rg.integers(1, T + 1, size=bs)
-  if T >= 2 and np.all(lens == T):
-    lens[(0,) * nb] = rg.integers(1, T)
-  valid = seq.valid_mask(seq.lengths_or_full(lens, bs, T), bs, T)
-  pad_ref = seq.pairwise_mask(valid, valid, lambda a, b: a * b)
-  o_pad_ref, _, ok_pad, _ = seq.mha(params_np, x, x, x, pad_ref, None)
-  x3 = x.copy()
-  x3[~valid] = _big(rg, x3[~valid].shape)
-  for api, fn in apis:
-    mod = nn if api == 'linen' else nnx
-    pm = mod.make_attention_mask(jnp.asarray(valid.astype(np.float32)), jnp.asarray(valid.astype(np.float32)))
-    ya = fn(x, pm, None)
-    ctx.check(ya.shape == o_pad_ref.shape and _close(ya[valid], o_pad_ref[valid], core.TOL_FORMULA), 'attn.mha_formula:%s.padding' % api,
-              lambda: dict(detail, lengths=lens.tolist(), diff=_diff(ya[valid], o_pad_ref[valid])))
-    if not valid.all():
-      yb = fn(x3, pm, None)
-      ctx.check(_close(yb[valid], ya[valid], core.TOL_SAME_PROGRAM), 'attn.noninterference:%s.padding' % api,
-                lambda: dict(detail, lengths=lens.tolist(), diff=_diff(yb[valid], ya[valid])))
-
-  # ---------------- cross-attention with keys that no query may see
-  Tk = int(rg.integers(2, 6))
-  dead = tuple(sorted(rg.choice(Tk, size=int(rg.integers(1, Tk)), replace=False).tolist()))
-  xm = random_mask(rg, bcast_shape(rg, bs, H, 'full' if cfg['mask'] == 'none' else cfg['mask']) + (T, Tk), dead)
-  xk = rg.uniform(-1, 1, bs + (Tk, F)).astype(np.float32)
-  xv = rg.uniform(-1, 1, bs + (Tk, F)).astype(np.float32)
-  o_x_ref = seq.mha(params_np, x, xk, xv, xm, None)[0]
-  xk2, xv2 = xk.copy(), xv.copy()
-  xk2[..., list(dead), :] = _big(rg, xk2[..., list(dead), :].shape)
-  xv2[..., list(dead), :] = _big(rg, xv2[..., list(dead), :].shape)
-  jxm = jnp.asarray(xm)
-  for api, fn in (('linen', lambda a, b: np.asarray(whole.apply({'params': params}, jx, jnp.asarray(a), jnp.asarray(b), mask=jxm))),
-                  ('nnx', lambda a, b: np.asarray(m(jx, jnp.asarray(a), jnp.asarray(b), mask=jxm, decode=False)))):
-    ya = fn(xk, xv)
-    ctx.check(_close(ya, o_x_ref, core.TOL_FORMULA), 'attn.mha_formula:%s.cross' % api, lambda: dict(detail, Tk=Tk, dead=dead, diff=_diff(ya, o_x_ref)))
-    yb = fn(xk2, xv2)
-    ctx.check(_close(yb, ya, core.TOL_SAME_PROGRAM), 'attn.noninterference:%s.dead_keys' % api, lambda: dict(detail, Tk=Tk, dead=dead, diff=_diff(yb, ya)))
-
 
 # ---------------------------------------------------------------------------------------------
 
 
 def run(ctx):
+  import time
   quick = ctx.tier == 'quick'
-  n_fn, n_mha, n_lin, n_nnx, n_bi = (24, 36, 216, 60, 36) if quick else (240, 432, None, None, 360)
+  t_last = [time.time()]
+
+  def lap(name):
+    now = time.time()
+    ctx.extra['seconds.' + name] = round(now - t_last[0], 1)
+    t_last[0] = now
+
+  n_fn, n_mha, n_lin, n_nnx, n_sq, n_bi = (24, 36, 216, 60, 16, 36) if quick else (240, 432, None, None, None, 360)
   K = 2 if quick else 3
 
   for i, cfg in ctx.items(attn_fn_configs(ctx, n_fn), 'attn.fn'):
     with ctx.case('attn.fn', i, cfg, nontrivial=cfg['Tk'] >= 2):
-      run_attn_fn_case(ctx, cfg, _np_rng(ctx, 'attn.fn', i), K)
+      run_attn_fn_case(ctx, cfg, _np_rng(ctx, 'attn.fn', i), K, i)
 
+  lap('attn.fn')
   for i, cfg in ctx.items(mha_configs(ctx, n_mha), 'attn.mha'):
     with ctx.case('attn.mha', i, cfg, nontrivial=cfg['T'] >= 2):
-      run_mha_case(ctx, cfg, _np_rng(ctx, 'attn.mha', i))
+      run_mha_case(ctx, cfg, _np_rng(ctx, 'attn.mha', i), i)
 
+  lap('attn.mha')
   cells = LINEN_CELLS if quick else LINEN_CELLS_THOROUGH
   for i, cfg in ctx.items(rnn_configs(ctx, 'rnn.linen', cells, n_lin), 'rnn.linen'):
     with ctx.case('rnn.linen', i, desc_of(cfg), nontrivial=cfg['T'] >= 2):
@@ -895,13 +964,20 @@ def run(ctx):
   if not quick:
     ctx.exhaustive['nn.RNN: cells x batch shapes x T<=6 x 32 flag combinations'] = True
 
+  lap('rnn.linen')
   for i, cfg in ctx.items(rnn_configs(ctx, 'rnn.nnx', NNX_CELLS, n_nnx), 'rnn.nnx'):
     with ctx.case('rnn.nnx', i, desc_of(cfg), nontrivial=cfg['T'] >= 2):
       run_rnn_case(ctx, 'nnx', cfg, _np_rng(ctx, 'rnn.nnx', i), K)
   if not quick:
     ctx.exhaustive['nnx.RNN: cells x batch shapes x T<=6 x 32 flag combinations'] = True
 
+  lap('rnn.nnx')
+  for i, cfg in ctx.items(square_configs(ctx, n_sq), 'rnn.square'):
+    with ctx.case('rnn.square', i, desc_of(cfg), nontrivial=cfg['T'] >= 2):
+      run_rnn_case(ctx, cfg['api'], cfg, _np_rng(ctx, 'rnn.square', i), K)
+  lap('rnn.square')
   for i, cfg in ctx.items(bidir_configs(ctx, n_bi), 'rnn.bidir'):
     d = dict(cfg, fwd=_spec_name(cfg['fwd']), bwd=_spec_name(cfg['bwd']))
     with ctx.case('rnn.bidir', i, d, nontrivial=cfg['T'] >= 2):
       run_bidir_case(ctx, cfg, _np_rng(ctx, 'rnn.bidir', i), K)
+  lap('rnn.bidir')
